@@ -1,0 +1,81 @@
+//! Hooks for property C40: run the gmsol-model liquidity / swap actions on the program's own
+//! mutable market (`RevertibleLiquidityMarket` over an in-memory account loader), exactly as
+//! `RevertibleLiquidityMarketOperation::{unchecked_deposit, unchecked_withdraw}` and the swap router
+//! do for the current market, so that the SDK's `MarketModel` can be compared on the same bytes.
+use anchor_lang::prelude::*;
+use anchor_spl::token::Mint;
+use gmsol_model::{price::Prices, LiquidityMarketMutExt, MarketAction, SwapMarketMutExt};
+
+use crate::{
+    events::EventEmitter,
+    states::{
+        market::revertible::{
+            liquidity_market::RevertibleLiquidityMarket, market::SwapPricingKind, Revertible,
+            RevertibleMarket,
+        },
+        Market, Store,
+    },
+    ModelError,
+};
+
+/// which action to run
+pub enum Action {
+    /// deposit(long_amount, short_amount)
+    Deposit(u128, u128),
+    /// withdraw(market_token_amount)
+    Withdraw(u128),
+    /// swap(is_token_in_long, token_in_amount)
+    Swap(bool, u128),
+}
+
+/// Runs one action and commits; returns the `Debug` image of the model's report.
+#[allow(clippy::too_many_arguments)]
+pub fn run_action<'info>(
+    loader: &AccountLoader<'info, Market>,
+    store: &AccountLoader<'info, Store>,
+    market_token: &Account<'info, Mint>,
+    token_program: &AccountInfo<'info>,
+    receiver_or_vault: &AccountInfo<'info>,
+    event_authority: &AccountInfo<'info>,
+    prices: Prices<u128>,
+    action: Action,
+) -> Result<String> {
+    let emitter = EventEmitter::new(event_authority, 255);
+    let base = RevertibleMarket::new(loader, None, emitter)?;
+    let market =
+        RevertibleLiquidityMarket::from_revertible_market(base, market_token, token_program, store)?;
+    let report = match action {
+        Action::Deposit(long, short) => {
+            let mut market = market
+                .enable_mint(receiver_or_vault)
+                .with_swap_pricing_kind(SwapPricingKind::Deposit);
+            let report = market
+                .deposit(long, short, prices)
+                .and_then(|d| d.execute())
+                .map_err(ModelError::from)?;
+            market.commit();
+            format!("{report:?}")
+        }
+        Action::Withdraw(amount) => {
+            let mut market = market
+                .enable_burn(receiver_or_vault)
+                .with_swap_pricing_kind(SwapPricingKind::Withdrawal);
+            let report = market
+                .withdraw(amount, prices)
+                .and_then(|w| w.execute())
+                .map_err(ModelError::from)?;
+            market.commit();
+            format!("{report:?}")
+        }
+        Action::Swap(is_token_in_long, amount) => {
+            let mut market = market.with_swap_pricing_kind(SwapPricingKind::Swap);
+            let report = market
+                .swap(is_token_in_long, amount, prices)
+                .and_then(|s| s.execute())
+                .map_err(ModelError::from)?;
+            market.commit();
+            format!("{report:?}")
+        }
+    };
+    Ok(report)
+}
